@@ -1736,7 +1736,7 @@ func (fa *funcAnalysis) checkUnitIndex(fd *ast.FuncDecl) {
 		reach, ok := reachFor[s.owner]
 		if !ok {
 			inc := incOf[s.owner]
-			g.Keep = cfgx.KeepUnder(func(c ast.Expr) (bool, bool) {
+			assumeInc := func(c ast.Expr) (bool, bool) {
 				be, ok := c.(*ast.BinaryExpr)
 				if !ok || (be.Op != token.EQL && be.Op != token.NEQ) {
 					return false, false
@@ -1751,9 +1751,8 @@ func (fa *funcAnalysis) checkUnitIndex(fd *ast.FuncDecl) {
 				}
 				// inc != 1 assumed
 				return be.Op == token.NEQ, true
-			})
-			reach = g.Reachable()
-			g.Keep = nil
+			}
+			reach = g.ReachSome(cfgx.WithBoolDefs(fa.info, fd.Body, assumeInc), cfgx.StableLeaf(fa.info, fd.Body))
 			reachFor[s.owner] = reach
 		}
 		loc, ok := g.Where[s.ix]
